@@ -149,13 +149,21 @@ impl Options {
     ///
     /// This is always [`FORMATTED_SIZE`][FormattedSize::FORMATTED_SIZE]
     /// or [`FORMATTED_SIZE_DECIMAL`][FormattedSize::FORMATTED_SIZE_DECIMAL],
-    /// depending on the radix.
+    /// depending on the radix, plus 1 if the format requires a `+` sign.
     #[inline(always)]
     pub const fn buffer_size_const<T: FormattedSize, const FORMAT: u128>(&self) -> usize {
-        if (NumberFormat::<FORMAT> {}.radix()) == 10 {
+        let format = NumberFormat::<FORMAT> {};
+        let size = if format.radix() == 10 {
             T::FORMATTED_SIZE_DECIMAL
         } else {
             T::FORMATTED_SIZE
+        };
+        // The formatted sizes only have room for the `-` of signed types, and the
+        // digits are written as if the whole buffer remained after the sign.
+        if cfg!(feature = "format") && format.required_mantissa_sign() {
+            size + 1
+        } else {
+            size
         }
     }
 
